@@ -214,7 +214,13 @@ impl Array {
     }
 
     fn val_iter(&self) -> impl Iterator<Item = &Val> {
-        self.arr.iter().chain(self.dict.values())
+        // dictionary values in sorted key order (as Display does), never in hash order
+        self.arr.iter().chain(
+            self.dict
+                .iter()
+                .sorted_by_key(|(k, _)| k.to_string())
+                .map(|(_, v)| v),
+        )
     }
 
     fn is_empty(&self) -> bool {
